@@ -62,6 +62,7 @@ class FakeTransport(asyncio.Transport):
         # congested (net.slow_peer, back-pressure armed or writing paused) mutable objects are therefore kept by reference
         # and read again when the buffer is flushed: what the peer receives is their content at that time.
         self._held: list[tuple[int, object]] = []
+        self.late_writes: list[tuple[float, bytes]] = []   # write() calls made after the connection was closed / lost
         self.rx_log = bytearray()  # every byte delivered to the client on this connection
         self.fail_after: Optional[int] = None  # fail the n-th write from now (1-based)
         self.black_hole = False
@@ -108,7 +109,12 @@ class FakeTransport(asyncio.Transport):
 
     def write(self, data) -> None:
         if self._conn_lost:
+            # like a selector transport: the bytes are dropped (and counted); they are remembered for checks that judge
+            # "nothing is written after shutdown", where handing bytes to a connection that is gone is still a write
             self._conn_lost += 1
+            if data:
+                self.late_writes.append((self.loop.time(), bytes(data)))
+                self.net._event("late_write", self.cid, bytes(data))
             return
         if not data:
             return
